@@ -40,6 +40,9 @@ structure Facts where
   /-- does the native builtin of this name accept a frozen list where it takes a list?  (false when its Go
       function asserts `.(pyList)` and never mentions `pyFrozenList` — regenerated, harness/extract/c18) -/
   frozenOK : String → Bool
+  /-- list `+` accepts a frozen list as its right operand (`pyList.Operator`, case Add: a branch on
+      `operand.(pyFrozenList)`; without it the sum fails with "Cannot add list and list") -/
+  addAcceptsFrozen : Bool := true
 
 inductive Val
   | int (n : Int)
@@ -287,10 +290,60 @@ end
 
 /-! ### Operators (objects.go) -/
 
+/-! #### `int(math.Floor(float64(i) / float64(o)))`, exactly
+
+The float64 detour of `//` (objects.go, `case FloorDivide` before the repair) in integer arithmetic: conversion of
+both operands to the nearest double (ties to even), a correctly rounded division, `math.Floor`, and the amd64
+conversion back (NaN, ±Inf and anything outside int64 give the "integer indefinite" value -2^63). -/
+
+/-- Nearest float64 to the positive rational `p / q` (`p, q > 0`), ties to even, as `(m, e)` meaning `m · 2^e` with
+    `2^52 ≤ m ≤ 2^53`.  No subnormals, no overflow: quotients of int64 magnitudes lie in `[2^-63, 2^63]`. -/
+def f64RoundPos (p q : Nat) : Nat × Int :=
+  let k : Int := (Nat.log2 p : Int) - (Nat.log2 q : Int)
+  let scaled (e : Int) : Nat × Nat := if e ≥ 0 then (p, q * 2 ^ e.toNat) else (p * 2 ^ (-e).toNat, q)
+  let e1 := k - 52
+  let (n1, d1) := scaled e1
+  let e := if n1 / d1 < 2 ^ 52 then e1 - 1 else e1
+  let (n, d) := scaled e
+  let m0 := n / d
+  let r := n % d
+  let m := if 2 * r > d ∨ (2 * r = d ∧ m0 % 2 = 1) then m0 + 1 else m0
+  (m, e)
+
+/-- ⌊m · 2^e⌋ -/
+def f64FloorPos (m : Nat) (e : Int) : Nat := if e ≥ 0 then m * 2 ^ e.toNat else m / 2 ^ (-e).toNat
+/-- ⌈m · 2^e⌉ -/
+def f64CeilPos (m : Nat) (e : Int) : Nat :=
+  if e ≥ 0 then m * 2 ^ e.toNat else (m + 2 ^ (-e).toNat - 1) / 2 ^ (-e).toNat
+
+/-- `float64(n)` for a positive integer magnitude. -/
+def f64OfNat (n : Nat) : Nat × Int := if n = 0 then (0, 0) else f64RoundPos n 1
+
 def intFloorDiv (i o : Int) : Int :=
-  -- `int(math.Floor(float64(i) / float64(o)))`; a zero divisor gives ±Inf/NaN whose conversion is the amd64
-  -- "integer indefinite" value.  Exact for the operand sizes the harness generates (|i|,|o| < 2^53).
-  if o == 0 then -9223372036854775808 else Int.fdiv i o
+  let indefinite : Int := -9223372036854775808
+  if o == 0 then indefinite
+  else if i == 0 then 0
+  else
+    let (mi, ei) := f64OfNat i.natAbs
+    let (mo, eo) := f64OfNat o.natAbs
+    -- quotient of the two doubles, (mi / mo) · 2^(ei - eo), rounded to the nearest double
+    let de := ei - eo
+    let (p, q) : Nat × Nat := if de ≥ 0 then (mi * 2 ^ de.toNat, mo) else (mi, mo * 2 ^ (-de).toNat)
+    let (m, e) := f64RoundPos p q
+    let neg := (decide (i < 0)) != (decide (o < 0))
+    let r : Int := if neg then -(f64CeilPos m e : Int) else (f64FloorPos m e : Int)
+    if r ≥ 9223372036854775808 ∨ r < -9223372036854775808 then indefinite else r
+
+/-- The Go function `floorMod` (objects.go, after the repair of `%`): Go's remainder, moved to the divisor's sign. -/
+def goFloorMod (i o : Int) : Int :=
+  let m := Int.tmod i o
+  if m != 0 && (decide (m < 0) != decide (o < 0)) then m + o else m
+
+/-- The Go function `floorDiv` (objects.go, after the repair of `//`): Go's quotient, one less when the division is
+    inexact and the signs differ. -/
+def goFloorDiv (i o : Int) : Int :=
+  let q := Int.tdiv i o
+  if Int.tmod i o != 0 && (decide (i < 0) != decide (o < 0)) then q - 1 else q
 
 def goRepeatStr (s : String) (n : Int) : EM Val :=
   if n < 0 then fail "strings: negative Repeat count"
@@ -332,7 +385,9 @@ def goIntBin (kind : String) (i o : Int) : EM Val :=
   else if kind = "*" then pure (.int (wrap64 (i * o)))
   else if kind = "/" then (if o == 0 then fail "integer divide by zero" else pure (.int (wrap64 (Int.tdiv i o))))
   else if kind = "%" then (if o == 0 then fail "integer divide by zero" else pure (.int (Int.tmod i o)))
+  else if kind = "floormod" then (if o == 0 then fail "integer divide by zero" else pure (.int (goFloorMod i o)))
   else if kind = "floor(float/float)" then pure (.int (intFloorDiv i o))
+  else if kind = "floordiv" then (if o == 0 then fail "integer divide by zero" else pure (.int (wrap64 (goFloorDiv i o))))
   else if kind = "<" then pure (.bool (i < o))
   else if kind = ">" then pure (.bool (i > o))
   else if kind = "<=" then pure (.bool (i ≤ o))
@@ -487,9 +542,11 @@ def binOp (F : Facts) (op : BinOp) (obj operand : Val) : EM Val :=
       match op with
       | .add =>
         match operand with
-        | .list _ arr2 off2 len2 _ => do
-          let ys ← elems arr2 off2 len2
-          listAppend F arr off len cap ys
+        | .list fz2 arr2 off2 len2 _ =>
+          if fz2 && !F.addAcceptsFrozen then fail "Cannot add list and list"
+          else do
+            let ys ← elems arr2 off2 len2
+            listAppend F arr off len cap ys
         | v => fail s!"Cannot add list and {typeName v}"
       | .lt => cmpOp F 64 .lt obj operand
       | .mul =>
